@@ -7,6 +7,7 @@ import (
 	"fmt"
 
 	"github.com/ontio/ontology-crypto/keypair"
+	vbft "github.com/ontio/ontology/consensus/vbft"
 	"github.com/ontio/ontology/core/types"
 
 	"verif/harness/gen"
@@ -78,8 +79,8 @@ func Run(c *hx.Ctx) {
 	for _, qs := range quorumSites {
 		ev, err := gen.NewEvaluator(c.Repo, siteByName(qs.name))
 		if err != nil {
+			// a broken translation is reported by the framework as a broken tie, not as a failing input
 			c.Note("site " + qs.name + ": " + err.Error())
-			c.Fail("translator:"+qs.name, "threshold expression not found or outside the supported fragment", qs.name, err.Error(), nil)
 			continue
 		}
 		found := false
@@ -87,7 +88,7 @@ func Run(c *hx.Ctx) {
 			q, err := ev.Eval(map[string]int64{qs.env: n})
 			c.Eval()
 			if err != nil {
-				c.Fail("formula-error:"+qs.name, "evaluation", map[string]interface{}{"site": qs.name, "N": n}, err.Error(), nil)
+				c.Note("site " + qs.name + ": evaluation failed: " + err.Error())
 				found = true
 				break
 			}
@@ -108,6 +109,42 @@ func Run(c *hx.Ctx) {
 						fmt.Sprintf("overlap %d", max64(0, 2*q-n)), fmt.Sprintf("overlap >= %d", cc+1))
 					found = true
 					break
+				}
+			}
+		}
+	}
+	// 1b. the same search on the RUNNING code where a threshold is observable: getCommitConsensus is
+	// driven with commit messages for one proposer from k distinct committers (the first e of them
+	// committing for the empty block) and the least accepted signer-set size (committers + proposer)
+	// is compared with the intersection requirement. Independent of the translator, so a changed
+	// expression the translator cannot read still yields a concrete failing configuration.
+	maxRun := c.N(31, 64)
+	for n := 4; n <= maxRun; n++ {
+		for cc := 1; 3*cc+1 <= n; cc++ {
+			for _, e := range []int{0, cc, cc + 1, n} {
+				q := -1
+				for k := 0; k < n; k++ {
+					specs := make([]vbft.VerifC31CommitSpec, 0, k)
+					for i := 0; i < k; i++ {
+						specs = append(specs, vbft.VerifC31CommitSpec{Committer: uint32(i + 2), Proposer: 1, ForEmpty: i < e})
+					}
+					prop, _ := vbft.VerifC31GetCommitConsensus(specs, cc, n)
+					c.Eval()
+					if prop == 1 {
+						q = k + 1
+						break
+					}
+				}
+				c.Count(fmt.Sprintf("run:commit-consensus:e=%s", map[bool]string{true: "gt-c", false: "le-c"}[e > cc]))
+				if q < 0 {
+					continue // never accepted with fewer than n signers: no quorum to intersect
+				}
+				c.Nontrivial(fmt.Sprintf("run/%d/%d/%d", n, cc, e))
+				if 2*q-n < cc+1 {
+					a, b := witnessSets(int64(n), int64(q))
+					c.Fail("quorum:run:getCommitConsensus", "two signer sets accepted by the running getCommitConsensus share no peer outside a C-set",
+						map[string]interface{}{"N": n, "C": cc, "empty_commits": e, "min_signers_incl_proposer": q, "set_a": a, "set_b": b},
+						fmt.Sprintf("overlap %d", max64(0, int64(2*q-n))), fmt.Sprintf("overlap >= %d", cc+1))
 				}
 			}
 		}
